@@ -13,6 +13,7 @@ MAX_HANDLE = 40
 FIXTURE_KIND = 'abixml'
 QUICK_N = 4000
 CPU_LIMIT = 10
+KNOWN_INPUTS = True      # findings are listed by site (known_findings.json) and by input (known_inputs/)
 DEP_EXEMPT = False
 LEGAL_READS = ('abidiff-dmg-intact', 'abilint')
 ASSUMPTIONS = ['decided part only: what a torn write, lost or misdirected sector, bit rot, short read or truncation can turn a valid document into; grammar-aware mutation is input generation and is not attempted',
